@@ -95,7 +95,12 @@ func adversarial(t *rapid.T) string {
 		}
 		return "\n"
 	}
-	switch rapid.IntRange(0, 13).Draw(t, "shape") {
+	switch rapid.IntRange(0, 14).Draw(t, "shape") {
+	case 14: // labels of a block that emits nothing are still held when something goes wrong
+		silent := rapid.SampledFrom([]string{"a i for 0\ndat i\nrof\n", "a b i for 1\n;c\nrof\n", "a i for 1\nfor 0\ndat 1\nrof\nrof\n", "a i for 0\nrof\nb j for 0\nrof\n", "x equ 0\na i for x\ndat 1\nrof\n"}).Draw(t, "silent")
+		between := rapid.SampledFrom([]string{"", ";c\n", "y equ 2\n", "\n\n", "q\n"}).Draw(t, "between")
+		wrong := rapid.SampledFrom([]string{"for nosuch\ndat 0\nrof\n", "=\n", "dat 0 =\n", "for (\ndat 0\nrof\n", "for 1/0\ndat 0\nrof\n", "k for 1 2\nrof\n", "| dat 0\n", "for 2\ndat 0\n", "rof\n", "for\n", "\x00\n", "for 1+\nrof\n", "!\n", "dat 0\n&\n"}).Draw(t, "wrong")
+		return silent + between + wrong + rapid.SampledFrom([]string{"", "dat a\n", "end\n"}).Draw(t, "after")
 	case 13: // a long (but acceptable) EQU value named many times by one operand, EQU value or FOR count
 		if rapid.IntRange(0, 3).Draw(t, "hugelit") == 0 {
 			// few tokens, many bytes: a literal of tens of thousands of digits named hundreds of times
@@ -375,7 +380,7 @@ func judgeTermCase(t testing.TB) func(c termCase, rec *hx.Rec) string {
 	}
 }
 
-const c05Rule = "inputs: valid programs (C03 and C08 generators), 1..6 token/byte mutations of them (delete/duplicate/transpose/replace/insert vocabulary words, line splices, truncation, NUL/^Z/0xFF/lone 0xC3/CR injection, CRLF, final newline removed, huge numbers), token soup, structured adversarial shapes (EQU cycles with and without ;assert, FOR with undefined/ill-formed counts, lexer errors inside FOR bodies, missing/stray/unterminated ROF, long EQU chains, diamond EQU graphs, a 2048-term EQU named thousands of times by one expression, very long lines, hundreds of labels, pseudo-ops in odd places, counters in counts) and mutations of those; both dialects x {nano, tiny, 8000, 8192/300, 2^34} configurations. Inputs whose own expansion estimate exceeds 2*10^4 tokens are discarded (counted). Each case runs in an isolated worker process: must return within 5 s (a timeout is confirmed once with 30 s; otherwise 'slow, inconclusive'), not panic, not kill the process, stay under a 256 MiB heap, return error xor warrior (error => zero WarriorData; success => non-nil Code), and leave no goroutine with a gmars frame after a 200 ms settle loop. Non-trivial: contains FOR/EQU/;assert and is mutated, or is adversarial-shaped; distinct by case hash."
+const c05Rule = "inputs: valid programs (C03 and C08 generators), 1..6 token/byte mutations of them (delete/duplicate/transpose/replace/insert vocabulary words, line splices, truncation, NUL/^Z/0xFF/lone 0xC3/CR injection, CRLF, final newline removed, huge numbers), token soup, structured adversarial shapes (EQU cycles with and without ;assert, FOR with undefined/ill-formed counts, lexer errors inside FOR bodies, missing/stray/unterminated ROF, errors of all these kinds right after a labelled block that emits nothing, long EQU chains, diamond EQU graphs, a 2048-term EQU named thousands of times by one expression, very long lines, hundreds of labels, pseudo-ops in odd places, counters in counts) and mutations of those; both dialects x {nano, tiny, 8000, 8192/300, 2^34} configurations. Inputs whose own expansion estimate exceeds 2*10^4 tokens are discarded (counted). Each case runs in an isolated worker process: must return within 5 s (a timeout is confirmed once with 30 s; otherwise 'slow, inconclusive'), not panic, not kill the process, stay under a 256 MiB heap, return error xor warrior (error => zero WarriorData; success => non-nil Code), and leave no goroutine with a gmars frame after a 200 ms settle loop. Non-trivial: contains FOR/EQU/;assert and is mutated, or is adversarial-shaped; distinct by case hash."
 
 func TestC05(t *testing.T) {
 	defer func() {
